@@ -504,7 +504,11 @@ impl Mp4Track {
                 sample_offset += self.sample_size(i)? as u64;
             }
 
-            Ok(chunk_offset + sample_offset)
+            chunk_offset
+                .checked_add(sample_offset)
+                .ok_or(Error::InvalidData(
+                    "attempt to calculate sample offset with overflow",
+                ))
         }
     }
 
